@@ -30,6 +30,13 @@ def safe_tables(ctx, prog, rule):
         return None
 
 
+def is_delegation(f, is_target):
+    """f is itself an implementation of the trait method the target predicate selects: a call of the method on another receiver inside it
+    is delegation by a wrapper type (reached only through the same trait method), not a new place the method is invoked from"""
+    tr = f.j.get('impl_trait')
+    return bool(tr and f.name and is_target(dict(name=f.name, trait=tr, local=False, **{'def': tr + '::' + f.name})))
+
+
 def terminal_call_sites(prog, is_target, roots, max_depth=3):
     """who-may-call through helpers: the call sites of the target, where a site inside a crate-private non-closure helper (other than a
     root function) is replaced by the call sites of that helper, transitively. Returns a list of (function short path, span).
@@ -55,7 +62,7 @@ def terminal_call_sites(prog, is_target, roots, max_depth=3):
         return out
     final = []
     seen = set()
-    work = [(f, sp, taken, 0) for f, sp, taken in uses_of(is_target)]
+    work = [(f, sp, taken, 0) for f, sp, taken in uses_of(is_target) if not is_delegation(f, is_target)]
     while work:
         f, sp, taken, depth = work.pop()
         sp_f = short(f.path)
